@@ -19,6 +19,8 @@ ValueMism(e) ==
   \cup (IF e.read_eq = 0 THEN {"read.value_differs:" \o e.type} ELSE {})
   \cup (IF e.read_used # -1 /\ e.read_used # Len(x) THEN {"read.consumed:" \o e.type} ELSE {})
   \cup (IF e.from_bytes_eq = 0 THEN {"from_bytes_or_write_checksum:" \o e.type} ELSE {})
+  \* the value is the field sequence, however it was constructed (longer ICV / payload first, then the setter)
+  \cup (IF e.alt = 0 THEN {"value.depends_on_construction_history:" \o e.type} ELSE {})
   \cup (IF Dec(e.type, x) # e.f THEN {"SPEC.RoundTrip"} ELSE {})
 
 BytesMism(e) ==
